@@ -141,3 +141,87 @@ func VerifC18Close() {
 	}
 	_ = r.Close()
 }
+
+// VerifC18CloseBlockedLoad: a store is closed while a Load (or a
+// LoadFromSnapshot) of it is STUCK on a block that no reachable peer provides
+// (the caller's context is still live).  Close - of the store, once or twice -
+// returns instead of waiting for the stuck load; once the caller gives up on
+// the load nothing is left running, and the directory reopens with all
+// acknowledged data.
+func VerifC18CloseBlockedLoad() {
+	blocks := vstub.NewBlocks(nil)
+	env := vstubodb.NewEnv("a", 1, "db", blocks, nil)
+	opts := env.Options(false)
+	opts.AccessController = vstubodb.WriteAll()
+	a := &BaseStore{}
+	if err := a.InitBaseStore(env.IPFS, env.Identity, env.Addr, opts); err != nil {
+		vstub.Fail("InitBaseStore failed")
+		return
+	}
+	ctx := context.Background()
+	var acks []ipfslog.Entry
+	n := 1 + vstub.NdChoice("entries", 2)
+	for k := 0; k < n; k++ {
+		e, err := a.AddOperation(ctx, operation.NewOperation(nil, "ADD", []byte{'e', byte(k)}), nil)
+		if err != nil {
+			vstub.Fail("C18 AddOperation failed")
+			return
+		}
+		acks = append(acks, e)
+	}
+	_ = a.Close()
+	vstub.WaitIdle()
+
+	r := reopen(env)
+	if r == nil {
+		return
+	}
+	// the oldest entry's block is not available right now
+	blocks.Hang[vstub.BlockKey(acks[0].GetHash())] = true
+	lctx, lcancel := context.WithCancel(ctx)
+	loadReturned := false
+	go func() {
+		_ = r.Load(lctx, -1)
+		loadReturned = true
+	}()
+	vstub.WaitIdle()
+	vstub.Assert(!loadReturned, "C18 harness: the load is stuck on the unavailable block")
+	vstub.Cover("load-stuck")
+
+	closeReturned := 0
+	closes := 1 + vstub.NdChoice("closes", 2)
+	for k := 0; k < closes; k++ {
+		go func() {
+			_ = r.Close()
+			closeReturned++
+		}()
+		vstub.WaitIdle()
+	}
+	vstub.Assert(closeReturned == closes, "C18 Close returns while a Load is stuck on an unavailable block (it does not wait for it)")
+	vstub.Cover("closed")
+	// a later operation returns as well (not a write: this store never finished
+	// loading its log, and writing through a store that has not loaded is outside
+	// every property)
+	_ = r.Close()
+	// the caller gives up on the load: nothing may be left running
+	lcancel()
+	vstub.WaitIdle()
+	vstub.Assert(loadReturned, "C18 the stuck Load returns once its own context ends")
+	vstub.Assert(vstub.LiveThreads(repoGoroutines) == 0, "C18 nothing is left running after Close and the end of the stuck load")
+
+	// the block becomes available again: the directory reopens with all acknowledged data
+	delete(blocks.Hang, vstub.BlockKey(acks[0].GetHash()))
+	r2 := reopen(env)
+	if r2 == nil {
+		return
+	}
+	if err := r2.Load(ctx, -1); err != nil {
+		vstub.Fail("C18 Load after Close failed")
+		return
+	}
+	vstub.WaitIdle()
+	for _, e := range acks {
+		vstub.Assert(inLog(r2, e), "C18 data acknowledged before Close is still there after reopening")
+	}
+	_ = r2.Close()
+}
